@@ -4,7 +4,10 @@
 From MLV Require Import gen.Params model.Bytes model.Crc32c model.Id model.Node model.BSearch model.Closest model.RTable model.Maint.
 Open Scope N_scope.
 
-Record tk := { k_now : Z; k_resp : option nat; k_pinged : list (N * N); k_table : list nat; k_boot_up : bool }.
+(* what the node read from its socket in this iteration *)
+Inductive kin := KNone | KResp (who : nat) | KReq (who : nat) (counted : bool).   (* counted: find_node, not read-only, node in server mode *)
+
+Record tk := { k_now : Z; k_in : kin; k_pinged : list (N * N); k_table : list nat; k_signed : list nat; k_boot_up : bool }.
 
 Inductive c14case :=
 | KTimeline (self : N) (idents : list (N * N * N)) (gap : Z) (t0 : Z) (ticks : list tk).
@@ -25,8 +28,14 @@ Fixpoint run14_model (ids : list (N * N * N)) (m : maint) (ticks : list tk) : bo
   match ticks with
   | [] => true
   | t :: r =>
-      let '(m', o) := mt_tick m (k_now t) (option_map (ident ids) (k_resp t)) in
-      table_same ids (mt_rt m') (k_table t) && addrs_same (o_pings o) (k_pinged t) && run14_model ids m' r
+      let inp := match k_in t with
+                 | KNone => INone
+                 | KResp k => IResp (ident ids k) true
+                 | KReq k counted => if counted then IReq (ident ids k) true false else INone
+                 end in
+      let '(m', o) := mt_tick m (k_now t) inp in
+      table_same ids (mt_rt m') (k_table t) && table_same ids (mt_srt m') (k_signed t)
+      && addrs_same (o_pings o) (k_pinged t) && run14_model ids m' r
   end.
 
 (* ---- the property on the observations ---- *)
@@ -42,7 +51,7 @@ Fixpoint run14_pb (gap : Z) (last : list (nat * Z)) (empty_run : nat) (ticks : l
   match ticks with
   | [] => true
   | t :: r =>
-      let last' := match k_resp t with Some k => set_last k (k_now t) last | None => last end in
+      let last' := match k_in t with KResp k => set_last k (k_now t) last | _ => last end in
       let now := k_now t in
       (* answered within the last 15 minutes: still in the table *)
       forallb (fun e : nat * Z => if (now - snd e <=? 900000)%Z then in_dump (fst e) (k_table t) else true) last'
